@@ -89,15 +89,20 @@ func (k Keeper) SendInflationaryRewards(ctx context.Context, coins sdk.Coins) er
 	}
 	quarter := coins.AmountOf(layer.BondDenom).QuoRaw(4)
 	threequarters := coins.AmountOf(layer.BondDenom).Sub(quarter)
-	outputs := []banktypes.Output{
-		{
+	// a provision of 1..3 loya (block-time gap of 1-2 ms) has a zero quarter; an output with
+	// no coins is rejected by the bank module, so only positive parts are sent
+	outputs := make([]banktypes.Output, 0, 2)
+	if threequarters.IsPositive() {
+		outputs = append(outputs, banktypes.Output{
 			Address: authtypes.NewModuleAddressOrBech32Address(types.TimeBasedRewards).String(),
 			Coins:   sdk.NewCoins(sdk.NewCoin(layer.BondDenom, threequarters)),
-		},
-		{
+		})
+	}
+	if quarter.IsPositive() {
+		outputs = append(outputs, banktypes.Output{
 			Address: authtypes.NewModuleAddressOrBech32Address(authtypes.FeeCollectorName).String(),
 			Coins:   sdk.NewCoins(sdk.NewCoin(layer.BondDenom, quarter)),
-		},
+		})
 	}
 	moduleAddress := authtypes.NewModuleAddressOrBech32Address(types.ModuleName)
 	inputs := banktypes.NewInput(moduleAddress, sdk.NewCoins(sdk.NewCoin(layer.BondDenom, threequarters.Add(quarter))))
